@@ -192,6 +192,7 @@ fn route_ok(k: RK, r: &Req) -> bool {
         RK::Get => !r.post,
         RK::Post => r.post,
         RK::Any => true,
+        RK::Hdr => r.xg,
     }
 }
 
